@@ -9,7 +9,7 @@ From the CURRENT source of the live `regions` package it extracts, on every run:
       `if … and not overwrite: raise OSError`), serialisation call, text encoding (explicit
       `.encode(...)` or the implicit one of a text-mode `fh.write`), `BinTableHDU(...)`,
       `open(filename, 'w')`, `fh.write(...)`, astropy `hdu.writeto(filename, overwrite=overwrite)`;
-      and whether the serialiser returns '' for an empty list;
+      and whether the serialiser returns '' for an empty list / when every element was skipped;
  (ii) the identifier tables: extension lists per method and content signature of every
       `identify` function (AST), the registration order from the live registry (for `Regions`
       and for `Region`), cross-checked against the live identifier functions on synthetic names
@@ -249,18 +249,27 @@ def fn_ast(func):
     raise ValueError(f'no def {func.__name__}')
 
 
-def empty_blank(func):
-    """does the serialiser start with `if not regions: return ''` ?"""
+def blank_rules(func):
+    """(empty_blank, kept_blank): does the serialiser contain, at top level,
+    `if not regions: return ''`  (empty INPUT list -> '') and
+    `if not <list it appends the serialised elements to>: return ''`  (nothing KEPT -> '') ?"""
     fn = fn_ast(func)
-    body = [s for s in fn.body if not (isinstance(s, ast.Expr) and isinstance(s.value, ast.Constant))]
-    if not body:
-        return False
-    s = body[0]
     arg0 = fn.args.args[0].arg
-    return (isinstance(s, ast.If) and isinstance(s.test, ast.UnaryOp) and isinstance(s.test.op, ast.Not)
-            and isinstance(s.test.operand, ast.Name) and s.test.operand.id == arg0
-            and len(s.body) == 1 and isinstance(s.body[0], ast.Return)
-            and isinstance(s.body[0].value, ast.Constant) and s.body[0].value.value == '')
+    appended = {n.func.value.id for n in ast.walk(fn)
+                if isinstance(n, ast.Call) and isinstance(n.func, ast.Attribute) and n.func.attr == 'append'
+                and isinstance(n.func.value, ast.Name)}
+    empty = kept = False
+    for s in fn.body:
+        if (isinstance(s, ast.If) and isinstance(s.test, ast.UnaryOp) and isinstance(s.test.op, ast.Not)
+                and isinstance(s.test.operand, ast.Name) and not s.orelse
+                and len(s.body) == 1 and isinstance(s.body[0], ast.Return)
+                and isinstance(s.body[0].value, ast.Constant) and s.body[0].value.value == ''):
+            name = s.test.operand.id
+            if name == arg0:
+                empty = True
+            elif name in appended:
+                kept = True
+    return empty, kept
 
 
 def identify_table(func, fmt, problems):
@@ -344,6 +353,7 @@ def extract():
 
     protos = {}
     blanks = {}
+    kept_blanks = {}
     info['ignored_calls'] = {}
     for f in KNOWN_FORMATS:
         w = reg[(Regions, 'write', f)]
@@ -356,7 +366,7 @@ def extract():
         walk.body(walk.fn.body)
         problems.extend(walk.problems)
         protos[f] = walk.steps
-        blanks[f] = empty_blank(ser)
+        blanks[f], kept_blanks[f] = blank_rules(ser)
         info['ignored_calls'][f] = sorted(set(walk.ignored))
         if 'serialize' not in walk.steps:
             problems.append(f'{f}: no serialisation step found in {w.__name__}')
@@ -364,6 +374,7 @@ def extract():
             problems.append(f'{f}: no write step found in {w.__name__}')
     info['protocols'] = protos
     info['empty_blank'] = blanks
+    info['kept_blank'] = kept_blanks
 
     tables = {}
     for f in KNOWN_FORMATS:
@@ -432,6 +443,11 @@ def extract():
     L.append('def emptyBlank : Format → Bool')
     for f in KNOWN_FORMATS:
         L.append(f'  | .{f} => {"true" if blanks[f] else "false"}')
+    L.append('')
+    L.append("/-- the serialiser returns '' when no element is left after skipping (`if not region_data: return ''`). -/")
+    L.append('def keptBlank : Format → Bool')
+    for f in KNOWN_FORMATS:
+        L.append(f'  | .{f} => {"true" if kept_blanks[f] else "false"}')
     L.append('')
 
     def entry(f):
